@@ -648,11 +648,27 @@ func (x *Exec) resolveModifies(env *Env, items []ModItem, where string) (map[str
 				all = true
 			case "allexcept":
 				all = true
+				type exPart struct{ text, pkg string }
+				var parts []exPart
 				for _, part := range strings.Split(it.T, ";") {
 					part = strings.TrimSpace(part)
+					if strings.HasPrefix(part, "set ") {
+						fs := x.C.FrameSets[strings.TrimSpace(part[4:])]
+						if fs == nil {
+							env.fail("modifies * except %s: no such frameset", part)
+						}
+						for _, fi := range fs.Items {
+							parts = append(parts, exPart{fi, fs.PkgPath})
+						}
+						continue
+					}
+					parts = append(parts, exPart{part, env.pkgPath})
+				}
+				for _, ep := range parts {
+					part, exPkg := ep.text, ep.pkg
 					if strings.HasPrefix(part, "maps[") && strings.HasSuffix(part, "]") {
 						// a whole map family stays as it is: "* except maps[map[string][]byte]"
-						mt, err := x.C.ResolveType(x.P, env.pkgPath, part[5:len(part)-1])
+						mt, err := x.C.ResolveType(x.P, exPkg, part[5:len(part)-1])
 						if err != nil {
 							env.fail("%v", err)
 						}
@@ -669,12 +685,25 @@ func (x *Exec) resolveModifies(env *Env, items []ModItem, where string) (map[str
 						}
 						continue
 					}
+					if strings.HasPrefix(part, "mem[") && strings.HasSuffix(part, "]") {
+						// the element memory of every slice/array of this element type stays as it is: "* except mem[uint64]"
+						et, err := x.C.ResolveType(x.P, exPkg, part[4:len(part)-1])
+						if err != nil {
+							env.fail("%v", err)
+						}
+						for _, l := range x.sorts.leaves(et) {
+							n := "mem_" + typeKey(et) + l.suffix
+							x.modExcept = append(x.modExcept, n)
+							x.noteArr(n, "(Array Int (Array "+x.sorts.Idx()+" "+l.sort+"))")
+						}
+						continue
+					}
 					part = strings.TrimSpace(strings.TrimPrefix(part, "type "))
 					i := strings.LastIndex(part, ".")
 					if i < 0 {
 						env.fail("modifies * except: bad item %q", part)
 					}
-					t, err := x.C.ResolveType(x.P, env.pkgPath, part[:i])
+					t, err := x.C.ResolveType(x.P, exPkg, part[:i])
 					if err != nil {
 						env.fail("%v", err)
 					}
